@@ -61,6 +61,62 @@ pub fn bfs(max_chans: usize, max_depth: usize, max_states: usize) -> Graph {
     Graph { paths, states: seen.len(), depth, closed }
 }
 
+/// Long-queue programs the breadth-first graph cannot reach within its depth: q messages queued
+/// on one channel (the statement's bound is 64 per channel), consumed through each receive
+/// variant or through the set (added before or after the sends), with the sender kept or dropped
+/// first, alone or next to a second member with one message; the consumer runs one step past the
+/// end of the queue.
+pub fn deep_programs(tier: Tier) -> Vec<Vec<Op>> {
+    use crate::model::How;
+    let qs: Vec<usize> = if tier.is_quick() { vec![31, 32, 33, 63, 64] } else { (3..=64).collect() };
+    let mut v = Vec::new();
+    for &q in &qs {
+        for drop_first in [false, true] {
+            for how in [How::Blocking, How::Try, How::Timed0] {
+                let mut p: Vec<Op> = (0..q).map(|_| Op::SendData(0)).collect();
+                if drop_first {
+                    p.push(Op::DropH(0));
+                }
+                p.extend((0..q).map(|_| Op::Recv { chan: 0, how }));
+                if drop_first || how != How::Blocking {
+                    p.push(Op::Recv { chan: 0, how });
+                }
+                v.push(p);
+            }
+            for add_first in [false, true] {
+                for second in [false, true] {
+                    let mut p: Vec<Op> = Vec::new();
+                    if second {
+                        p.push(Op::NewChannel);
+                    }
+                    if add_first {
+                        p.push(Op::SetAdd(0));
+                    }
+                    p.extend((0..q).map(|_| Op::SendData(0)));
+                    if second {
+                        p.push(Op::SendData(1));
+                        p.push(Op::SetAdd(1));
+                    }
+                    if drop_first {
+                        p.push(Op::DropH(0));
+                    }
+                    if !add_first {
+                        p.push(Op::SetAdd(0));
+                    }
+                    p.push(Op::SetDrain);
+                    // something more arrives afterwards and is reported too
+                    if !drop_first {
+                        p.push(Op::SendData(0));
+                        p.push(Op::SetDrain);
+                    }
+                    v.push(p);
+                }
+            }
+        }
+    }
+    v
+}
+
 fn params(tier: Tier) -> (usize, usize, usize) {
     if tier.is_quick() {
         (2, 6, 100000)
@@ -82,9 +138,19 @@ fn part(tier: Tier) -> (Part, Graph) {
             fails.push((path.clone(), e));
         }
     });
+    let deep = deep_programs(tier);
+    let mut nd = 0u64;
+    sweep_batched(&deep, 4, 120.0, &cfg, &|path: &Vec<Op>| run_path_from(initial(2), path, false), &mut |_, path, r| {
+        nd += 1;
+        if let Err(e) = r {
+            fails.push((path.clone(), e));
+        }
+    });
+    n += nd;
     p.evaluations = n;
     p.distinct = n;
     p.count("programs", n);
+    p.count("long_queue_programs", nd);
     p.sample(json!({"program": g.paths[g.paths.len() / 2]}));
     p.sample(json!({"program": g.paths[g.paths.len() - 1]}));
     for (path, e) in fails {
@@ -131,7 +197,7 @@ pub fn run(tier: Tier, part_only: bool) -> i32 {
     } else {
         rep.set("cap_note", json!("the model state graph hit its state cap before the depth bound: every state and transition found was covered on all three builds, but not every program up to that depth"));
     }
-    rep.set("rule", json!("states/transitions are those of the reference model's graph under the alphabet {new channel, new channel through a one-shot server (new, connect, send, accept), clone, drop handle, send data, send data+region, embed sender, embed receiver, recv when the model defines it, try_recv, try_recv_timeout(0), add receiver to the set, drain the set while events are pending, drop receiver}; every transition is one program executed from scratch on each of the three builds with all results compared to the model (values, order, empty, disconnected, send failures; select results per member)"));
+    rep.set("rule", json!("states/transitions are those of the reference model's graph under the alphabet {new channel, new channel through a one-shot server (new, connect, send, accept), clone, drop handle, send data, send data+region, embed sender, embed receiver, recv when the model defines it, try_recv, try_recv_timeout(0), add receiver to the set, drain the set while events are pending, drop receiver}; every transition is one program executed from scratch on each of the three builds with all results compared to the model (values, order, empty, disconnected, send failures; select results per member); long_queue_programs: besides the graph, every program of the family (q in {31,32,33,63,64} [thorough: 3..=64] messages queued on one channel) x (sender kept / dropped first) x (consumed by recv, try_recv, try_recv_timeout(0) one step past the end, or by the set added before / after the sends, alone / next to a second member, then one more message) on all three builds"));
     rep.assume("operations the statement does not list (connecting to a non-existent name, selecting on an empty set, using a moved-out receiver, a blocking call the model says would block) are not in the alphabet");
     rep.assume("agreement of the three builds is established through agreement of each with the same deterministic model on the same programs");
     rep.finish()
